@@ -178,7 +178,8 @@ def run(ctx):
             pkg.build_v2(md, truth, aperture_dependent=(mode == '3d'), logd_step=0.1, descending_wav=bool(rng.random() < 0.5))
             filt = [w * u.micron for w in wav]
         lw, lc = gen.make_law_arrays(rng, n=12, lo=0.05, hi=3000.0)
-        law = gen.build_law(lw, lc)
+        law_unit = [None, u.nm, u.AA, u.cm][int(rng.integers(4))]      # the law travels through the pickle with its own unit
+        law = gen.build_law(lw, lc, wav_unit=law_unit)
         k = O.ext_pattern(lw, lc, wav)
         if mode == '3d':
             theta = np.array([float(gen.loguniform(rng, truth.apertures[0] * 1.05, truth.apertures[-1])) for _ in range(nb)]) / 1000.0
@@ -274,8 +275,15 @@ def run(ctx):
                 ctx.violation('file:predicted-fluxes-presence', 'predicted fluxes present iff requested is violated', dict(wit0, source=e.source.name))
         mc = meta_canon(meta)
         want_meta = {'model_dir': md, 'filters': [(None if style == 'v2' else bn[i], float(theta[i]), float(wav[i])) for i in range(nb)],
-                     'law_wav': np.asarray(lw, float), 'law_chi': np.asarray(lc, float)}
+                     'law_wav': np.asarray(law.wav.to(u.micron).value, float), 'law_chi': np.asarray(lc, float)}
         ctx.event('meta:compared')
+        try:
+            k_back = np.asarray(meta.extinction_law.get_av(wav * u.micron), float)
+            if not probe.same(k_back, np.asarray(law.get_av(wav * u.micron), float)) or meta.extinction_law.wav.unit != law.wav.unit:
+                ctx.violation('file:law-differs', 'the extinction law read back from the file does not give the pattern of the law that was passed in',
+                              dict(wit0, law_unit=str(law.wav.unit), got=k_back))
+        except Exception as exc:
+            ctx.violation('file:law-differs', 'the extinction law read back cannot be evaluated: %r' % (exc,), wit0)
         badm = [k_ for k_ in want_meta if not (probe.same(mc[k_], want_meta[k_]) if isinstance(want_meta[k_], np.ndarray) else
                                                (mc[k_] == want_meta[k_] if k_ != 'filters' else
                                                 all(a[0] == b[0] and abs(a[1] - b[1]) <= 1e-12 * abs(b[1]) and abs(a[2] - b[2]) <= 1e-9 * b[2] for a, b in zip(mc[k_], want_meta[k_])) and len(mc[k_]) == len(want_meta[k_])))]
